@@ -128,7 +128,12 @@ def injected_faults(sc, seed, tier, only=None):
                 dst_items = dict(x.split("=", 1) for x in raw["obs"].split(" ")).get("dst", "-")
                 junk = [it for it in dst_items.split(",") if it != "-" and it.split(":")[1] in idp]
                 ef_cases.append("EF" + raw["case"][1:] + " %s %s" % (",".join(sorted(idp)), ",".join(junk) or "-"))
-                ef_obs.append((raw["obs"], dict(ident)))
+                # the footprint of a transfer is its destination AND its working file (Temp.v): when the clean-up of the working
+                # file fails too (a pair of faults) it stays behind -- part of "what the failing task left", not of the comparison
+                wid = {raw["ids"].path(pth + ".sy.tmp") for pth in errp if (pth + ".sy.tmp") in raw["after"] and (pth + ".sy.tmp") not in raw["before"]}
+                o_clean = " ".join(("dst=" + (",".join(it for it in t[4:].split(",") if it == "-" or it.split(":")[1] not in wid) or "-")) if t.startswith("dst=") else t
+                                   for t in raw["obs"].split(" "))
+                ef_obs.append((o_clean, dict(ident)))
             elif errp:
                 stats["ef_skipped"] = stats.get("ef_skipped", 0) + 1
             # files the failing calls did not touch
